@@ -249,6 +249,13 @@ func init() {
 	// only panic-level messages are enabled; they go to stderr so that the reason of an emulator crash is recorded
 	log.SetOutput(os.Stderr)
 	log.SetLevel(log.PanicLevel)
+	if os.Getenv("VERIF_DEBUG") == "2" {
+		// debugging aid for `verif job`: the emulator's own log, on stderr
+		log.SetLevel(log.DebugLevel)
+		if f, err := os.Create("/tmp/verif-sutlog.txt"); err == nil {
+			log.SetOutput(f)
+		}
+	}
 }
 
 // AbstractState is a coarse description of the run's state as the harness sees it.
